@@ -541,7 +541,9 @@ where
         s: &str,
         lex_flags: LexFlags,
     ) -> LexBuildResult<LRNonStreamingLexerDef<LexerTypesT>> {
-        let (_, pos) = GrmtoolsSectionParser::new(s, false).parse().unwrap();
+        let (_, pos) = GrmtoolsSectionParser::new(s, false)
+            .parse()
+            .map_err(|mut errs| errs.drain(..).map(LexBuildError::from).collect::<Vec<_>>())?;
         LexParser::<LexerTypesT>::new_with_lex_flags(s.to_string(), pos, lex_flags.clone()).map(
             |p| LRNonStreamingLexerDef {
                 rules: p.rules,
